@@ -262,6 +262,11 @@ func (o *OvsdbServer) Monitor(client *rpc2.Client, args []json.RawMessage, reply
 	if err := json.Unmarshal(args[2], &request); err != nil {
 		return err
 	}
+	// a transaction notifies the monitors before it commits: reading the
+	// initial contents and registering must not fall in between, or this
+	// monitor would never learn of that transaction
+	o.txnMutex.Lock()
+	defer o.txnMutex.Unlock()
 	o.monitorMutex.Lock()
 	defer o.monitorMutex.Unlock()
 	clientMonitors, ok := o.monitors[client]
@@ -308,6 +313,11 @@ func (o *OvsdbServer) MonitorCond(client *rpc2.Client, args []json.RawMessage, r
 	if err := json.Unmarshal(args[2], &request); err != nil {
 		return err
 	}
+	// a transaction notifies the monitors before it commits: reading the
+	// initial contents and registering must not fall in between, or this
+	// monitor would never learn of that transaction
+	o.txnMutex.Lock()
+	defer o.txnMutex.Unlock()
 	o.monitorMutex.Lock()
 	defer o.monitorMutex.Unlock()
 	clientMonitors, ok := o.monitors[client]
@@ -354,6 +364,11 @@ func (o *OvsdbServer) MonitorCondSince(client *rpc2.Client, args []json.RawMessa
 	if err := json.Unmarshal(args[2], &request); err != nil {
 		return err
 	}
+	// a transaction notifies the monitors before it commits: reading the
+	// initial contents and registering must not fall in between, or this
+	// monitor would never learn of that transaction
+	o.txnMutex.Lock()
+	defer o.txnMutex.Unlock()
 	o.monitorMutex.Lock()
 	defer o.monitorMutex.Unlock()
 	clientMonitors, ok := o.monitors[client]
